@@ -3,6 +3,7 @@
 # <agent-dir>/<ID>/demo_<ID>.py), confirm it independently (tools_seed_confirm.sh), then run the property's check
 # against a private scratch worktree carrying the change (tools_seed_all.py) and remove that worktree.
 ID=$1; K=$2; A=$3; NOTES=$4
+[ -e /verif/seeded/$ID-$K ] && { echo "seeded/$ID-$K exists already"; exit 9; }
 S=/tmp/seed_out/$ID/$K; mkdir -p $S
 cp $A/$ID.patch $S/patch.diff
 sed "s#/tmp/seed5/$ID#.#g; s#$A/$ID#.#g" $A/$ID/demo_$ID.py > $S/demo.py
@@ -12,4 +13,4 @@ T=/tmp/dev_$ID_$K; T=/tmp/dev_${ID}_$K
 git -C /repo worktree add -q --detach $T HEAD || exit 9
 SEED_TREE=$T /venv/bin/python /verif/tools_seed_all.py $ID-$K
 git -C /repo worktree remove --force $T
-rm -rf /tmp/seed_out/$ID
+rm -rf /tmp/seed_out/$ID/$K
